@@ -145,6 +145,51 @@ def cmd_run(name, props):
 REFAC = os.path.join(VERIF, "refactors")
 
 
+def cmd_run_combos(which):
+    """refactor-then-break: every seeded change that its own property's check catches must still be caught after a
+    behaviour-preserving refactoring of the same file(s) has been applied first (a refactoring must not blind a rule)"""
+    import re
+    def files_of(path):
+        return set(re.findall(r"^\+\+\+ b/(\S+)", open(path).read(), re.M))
+    muts = sorted(os.listdir(SEEDED)) if which == "all" else [which]
+    refs = sorted(os.listdir(REFAC))
+    out = os.path.join(VERIF, "refactors", "COMBOS.json")
+    results = json.load(open(out)) if os.path.exists(out) and which != "all" else {}
+    rc = 0
+    for m in muts:
+        md = os.path.join(SEEDED, m)
+        det = os.path.join(md, "detection.json")
+        if not os.path.exists(det):
+            continue
+        meta = json.load(open(os.path.join(md, "meta.json")))
+        prop = meta["property"]
+        if json.load(open(det))["checks"].get(prop, {}).get("exit") != 1:
+            continue        # a documented miss stays a miss
+        mf = files_of(os.path.join(md, "patch.diff"))
+        for r in refs:
+            rp = os.path.join(REFAC, r, "patch.diff")
+            if not os.path.exists(rp) or not (files_of(rp) & mf):
+                continue
+            assert sh("git -C /repo status --porcelain --untracked-files=no").stdout.strip() == "", "/repo has uncommitted changes"
+            try:
+                a1 = sh("git -C /repo apply %s" % rp)
+                a2 = sh("git -C /repo apply -3 %s" % os.path.join(md, "patch.diff")) if a1.returncode == 0 else a1
+                if a1.returncode != 0 or a2.returncode != 0 or "<<<<<<<" in sh("git -C /repo diff").stdout:
+                    continue        # the two changes overlap textually: no combination to test
+                # the combination must still compile
+                cc = sh("cd %s && VERIF_JOBS=8 ./check %s --tier quick" % (VERIF, prop), timeout=900)
+                viol = [l.strip()[:200] for l in cc.stdout.splitlines() if l.startswith("  violation:")]
+                results["%s+%s" % (r, m)] = {"exit": cc.returncode, "violations": viol[:2]}
+                flag = "" if cc.returncode == 1 else "   <-- NOT CAUGHT"
+                if cc.returncode != 1:
+                    rc = 1
+                print("%-10s + %-8s %s exit=%d%s" % (r, m, prop, cc.returncode, flag), flush=True)
+            finally:
+                sh("git -C /repo reset -q --hard HEAD")
+    json.dump(results, open(out, "w"), indent=1, sort_keys=True)
+    return rc
+
+
 def cmd_verify_refactor(src, name):
     """behaviour-preserving change: patch applies to /repo HEAD, library builds, suite (incl. unit tests) still passes"""
     wt = tempfile.mkdtemp(prefix="rtrverif.rf.")
@@ -226,6 +271,8 @@ def cmd_run_refactors(name):
 if __name__ == "__main__":
     if sys.argv[1] == "verify-refactor":
         sys.exit(cmd_verify_refactor(sys.argv[2], sys.argv[3]))
+    if sys.argv[1] == "run-combos":
+        sys.exit(cmd_run_combos(sys.argv[2]))
     if sys.argv[1] == "run-refactors":
         sys.exit(cmd_run_refactors(sys.argv[2]))
     if sys.argv[1] == "reverify":
